@@ -302,6 +302,14 @@ def r3_best_batch(ctx: Context) -> None:
         for sub in ast.walk(lp):
             if isinstance(sub, ast.For) and sub is not lp:
                 outer, inner = lp, sub
+    pos_var: str | None = None
+    pos_seq: str | None = None
+    if inner is not None and isinstance(inner.target, ast.Tuple) and len(inner.target.elts) == 2 and all(isinstance(x, ast.Name) for x in inner.target.elts) \
+            and isinstance(inner.iter, ast.Call) and isinstance(inner.iter.func, ast.Name) and inner.iter.func.id == "enumerate" and len(inner.iter.args) == 1 and not inner.iter.keywords:
+        # `for position, index in enumerate(X)`: index is X[position]; read as `for index in X`, with `X[position]` / `A[X][position]` / `np.take(A, X)[position]`
+        # standing for `index` / `A[index]`
+        pos_var, pos_seq = inner.target.elts[0].id, src(inner.iter.args[0])
+        inner = _copy_loop_without_enumerate(inner)
     if inner is None or not isinstance(inner.target, ast.Name) or not isinstance(outer.target, ast.Name):
         raise AnalysisError(f"{sb.loc(sb.node)}: best-batch no longer has the row loop / shocked-coordinate loop structure; cannot decide R3")
     ix = inner.target.id
@@ -364,7 +372,11 @@ def r3_best_batch(ctx: Context) -> None:
                 if isinstance(node.ctx, ast.Load) and node.id in loc:
                     return _copy.deepcopy(loc[node.id])
                 return node
-        return ast.fix_missing_locations(_S().visit(_copy.deepcopy(e)))
+        out_ = _S().visit(_copy.deepcopy(e))
+        if pos_var is not None:
+            out_ = _Positional(pos_var, pos_seq, ix).visit(out_)
+        out_ = _MinMaxClip().visit(out_)
+        return ast.fix_missing_locations(out_)
 
     def compose(block: list[ast.stmt], states: list[tuple[ast.expr, dict[str, ast.expr]]]) -> list[tuple[ast.expr, dict[str, ast.expr]]]:
         for st_ in block:
@@ -422,6 +434,50 @@ def r3_best_batch(ctx: Context) -> None:
                   "coordinate `index` moves by precision[index] * sign * size with sign = 2*integers(0,2)-1 in {-1,+1} and size = integers(1, perturbation_range) in 1..range-1",
                   f"on one path through the loop body the coordinate moves by `{txt[:260].replace(START, 'old')}`", sb, inner)
     ctx.check(rows_ok, "R3.parents", "BestBatchSampler.sample_batch:rows-shocked", "the shocked rows are the selected parents", rows_msg, sb, outer)
+
+
+def _copy_loop_without_enumerate(lp: ast.For) -> ast.For:
+    import copy
+    new = copy.copy(lp)
+    new.target = lp.target.elts[1]  # type: ignore[attr-defined]
+    new.iter = lp.iter.args[0]  # type: ignore[attr-defined]
+    return new
+
+
+class _Positional(ast.NodeTransformer):
+    """Inside `for p, i in enumerate(X)`: X[p] is i; for a 1-D A, A[X][p] and np.take(A, X)[p] are A[i]."""
+
+    def __init__(self, p: str, seq: str | None, i: str) -> None:
+        self.p, self.seq, self.i = p, seq, i
+
+    def visit_Subscript(self, node: ast.Subscript):  # noqa: N802
+        self.generic_visit(node)
+        if isinstance(node.slice, ast.Name) and node.slice.id == self.p and isinstance(node.ctx, ast.Load):
+            v = node.value
+            if src(v) == self.seq:
+                return ast.copy_location(ast.Name(id=self.i, ctx=ast.Load()), node)
+            if isinstance(v, ast.Subscript) and src(v.slice) == self.seq:
+                return ast.copy_location(ast.Subscript(value=v.value, slice=ast.Name(id=self.i, ctx=ast.Load()), ctx=ast.Load()), node)
+            if isinstance(v, ast.Call) and (dotted(v.func) or "") in ("np.take", "numpy.take") and len(v.args) == 2 and not v.keywords and src(v.args[1]) == self.seq:
+                return ast.copy_location(ast.Subscript(value=v.args[0], slice=ast.Name(id=self.i, ctx=ast.Load()), ctx=ast.Load()), node)
+        return node
+
+
+class _MinMaxClip(ast.NodeTransformer):
+    """`min(max(v, lo), hi)` / `max(min(v, hi), lo)` confine v to [lo, hi] (lo <= hi: the bounds of a search space) - read as np.clip(v, lo, hi)."""
+
+    def visit_Call(self, node: ast.Call):  # noqa: N802
+        self.generic_visit(node)
+        def two(c, nm):
+            return isinstance(c, ast.Call) and isinstance(c.func, ast.Name) and c.func.id == nm and len(c.args) == 2 and not c.keywords
+        out = None
+        if two(node, "min") and two(node.args[0], "max"):
+            out = (node.args[0].args[0], node.args[0].args[1], node.args[1])
+        elif two(node, "max") and two(node.args[0], "min"):
+            out = (node.args[0].args[0], node.args[1], node.args[0].args[1])
+        if out is None:
+            return node
+        return ast.copy_location(ast.Call(func=ast.Attribute(value=ast.Name(id="np", ctx=ast.Load()), attr="clip", ctx=ast.Load()), args=list(out), keywords=[]), node)
 
 
 def _int_draw_interval(n, e: ast.expr) -> tuple[str, str] | None:
